@@ -150,6 +150,15 @@ def run(chk):
             why = "unexpected outcome " + i[:80]
         if why:
             chk.violate({"kind": "property", "case": lib.show_case(c), "impl": i[:1500], "explanation": why})
+    # the order does not depend on what the process decoded before: a fresh process that has first read a .changes, a
+    # Sources and a Packages index and a debian/control gives the same answers
+    k = max(1, len(cases) // chk.n(600, 12000))
+    after = chk.run_impl([("dscorderafter", c[1]) for c in cases[::k]])
+    chk.record("after-other-document-kinds", [("dscorderafter", c[1]) for c in cases[::k]], after)
+    for c, a, b in zip(cases[::k], impl[::k], after):
+        if a != b:
+            chk.violate({"kind": "property", "case": lib.show_case(("dscorderafter", c[1])), "alone": a[:800], "after_other_kinds": b[:800],
+                         "explanation": "the same sources are ordered differently in a process that decoded other document kinds (.changes, indexes, debian/control) before"})
     chk.extra["cyclic_problems"] = ncyc
     again = chk.run_impl(cases[::3])
     for c, a, b in zip(cases[::3], impl[::3], again):
